@@ -200,6 +200,47 @@ func runC20(c *Ctx) {
 				return true
 			})
 			c.Check("C20-R1", "remapped values are what is written", c.Pos(swE), okW && okWD, "Encode must WriteRune the remapped rune, Decode must WriteByte the remapped rune")
+			// … and nothing else: the loop around each table writes to its builder only through that call
+			// and has no way round the table (a fast path that writes the raw byte is a second, unmodelled map)
+			for _, side := range []struct {
+				f     *core.Func
+				sw    ast.Node
+				write string
+				v     types.Object
+			}{{fe, swE, "strings.Builder.WriteRune", vE}, {fd, swD, "strings.Builder.WriteByte", vD}} {
+				var loop *ast.RangeStmt
+				for _, rl := range rangeLoops(side.f) {
+					if within(rl.Stmt, side.sw) && (loop == nil || within(loop, rl.Stmt)) {
+						loop = rl.Stmt
+					}
+				}
+				if loop == nil {
+					c.Undecided("C20-R1", side.f.Key()+" loop around the byte table", c.Pos(side.sw), "anchor lost")
+					continue
+				}
+				bad := ""
+				ast.Inspect(loop.Body, func(n ast.Node) bool {
+					if n == nil {
+						return true
+					}
+					if within(side.sw, n) && n != side.sw {
+						return true // inside the table itself: interpreted by the piecewise analysis
+					}
+					switch x := n.(type) {
+					case *ast.BranchStmt:
+						bad = x.Tok.String() + " at " + c.Pos(x) + " bypasses the table"
+					case *ast.CallExpr:
+						name := core.CalleeName(info, x)
+						if strings.HasPrefix(name, "strings.Builder.Write") {
+							if name != side.write || len(x.Args) != 1 || !core.UsesObj(info, x.Args[0], side.v) {
+								bad = "additional write " + core.ExprString(x) + " at " + c.Pos(x)
+							}
+						}
+					}
+					return true
+				})
+				c.Check("C20-R1", side.f.Key()+" every byte goes through the table", c.Pos(loop), bad == "", bad)
+			}
 		}
 	}
 
